@@ -1025,8 +1025,9 @@ class PolyhedralTermList(TermList):  # noqa: WPS338
         assert n == len(b), "n is {} and b is {}".format(n, b)
         if helper_present:
             assert n_h == len(b_help)
-        else:
-            assert len(b_help) == 0
+        elif np.any(np.asarray(b_help) < 0):
+            # the context only has constraints without variables (0 <= b): a negative b makes it unsatisfiable
+            raise ValueError("The constraints are unsatisfiable")
         if helper_present and m > 0:
             assert m_h == m
         if n == 0:
